@@ -15,7 +15,7 @@ import random
 
 from . import model as M
 from . import wf
-from .core import short_tb
+from .core import exc_in_library, short_tb
 
 ROOT = 0  # symbolic uid of the invisible root / the tree itself
 
@@ -579,7 +579,14 @@ class Session:
                             findings.append(Finding("C02:wrong_data_id", f"copy reports data_id {got_ids[0]!r}, the source has {want_ids[0]!r}"))
                     except Exception:
                         pass
-                errs += self.compare()
+                try:
+                    errs += self.compare()
+                except Exception:
+                    if not exc_in_library():
+                        raise
+                    # reading parent / children / data of a reachable node raised inside the library
+                    findings.append(Finding("C01:wf_graph", "reading the structure after the call raised: " + short_tb(3)[-600:]))
+                    errs.append("structure not readable")
                 if not errs:
                     kind = outcome.ret[0]
                     if kind == "node":
